@@ -27,6 +27,10 @@ def run(ctx):
         r += RS.check_range(ctx, led, v)
         n += RS.check_scale(ctx, led, v)
         RS.check_json_scores(ctx, led, v)
+        # scores() itself: float of each slot, None exactly for an undefined v2 score
+        from ..rules_score import check_scores_out
+
+        check_scores_out(ctx, led, v, "C09.out")
     led.require_min("C09.scale", n, 600, "grid points evaluated (7 slots x 101)")
     led.require_min("C09.quantised", q, 10, "score values with the quantised typestate")
     led.require_min("C09.range", r, 7, "score expressions bounded")
